@@ -25,7 +25,7 @@ LEVEL_NOTE = ("Trusted: Coq kernel, Go harness + Python glue. Modelled, not veri
 THEOREMS = ["get_merge3", "merge3_is_merge", "merge3_base_left_eq", "merge3_base_right_eq", "merge3_same_eq", "cherry_pick_is_merge", "revert_is_merge",
             "revert_latest", "cherry_pick_on_parent", "rebase_is_fold", "squash_only_boundaries",
             "get_resolved", "merge_proc_spec", "abort_restores", "rebase2_is_fold", "rebase_abort_restores", "smerge_proc_same_schema",
-            "oracle_on_model_partial (commit trees of one schema; schema-changing commits: correspondence only)"]
+            "oracle_on_model_partial (commit trees of one schema, incl. operations with unrelated uncommitted work: oracle_op_dirty_model; schema-changing commits: correspondence only)"]
 KNOWN_KEY = "schema-merge:restored-column-value-lost-when-equal-to-cell-at-same-position"
 
 
@@ -43,7 +43,8 @@ def match_known(finding, case, out):
         if op["kind"] == "rv" and x["kind"] == "ok" and cols != sorted(cols, key=lambda c: COLID[c]):
             return True
     return False
-RULE = ("commit trees of 4-8 commits over two tables (pk, a, b) with values in {NULL,0..3} and keys 1..4, every commit changing 1-3 cells/rows of its parent "
+RULE = ("round 3: reverts / cherry-picks with unrelated uncommitted work (table t2 edited unstaged and / or an untracked table) observing the COMMITTED rows (AS OF HEAD), the working rows and dolt_status; "
+        "rebase plans written with fractional rebase_order values (x.7 x.1 x.3 x.25 ...) so that conflict pauses + --continue fall on such steps; commit trees of 4-8 commits over two tables (pk, a, b) with values in {NULL,0..3} and keys 1..4, every commit changing 1-3 cells/rows of its parent "
         "(so edits overlap and conflict often); per tree 6-9 operations: cherry-pick / revert of a random commit on a random head (biased to the algebraic "
         "cases head = parent(c) and c = head) and rebase plans over the commits tip..onto with random actions, order changes and dropped steps; "
         "non-trivial = at least one operation succeeded with a content different from its head; distinct by case JSON")
